@@ -90,6 +90,8 @@ type job struct {
 	bin      string
 	args     []string
 	name     string
+	prop     string
+	part     string
 	res      *Result
 	err      string
 	out      []byte
@@ -102,6 +104,7 @@ type propInfo struct {
 	rule       string
 	assume     []string
 	minOutcomes int
+	mustOutcomes []string
 }
 
 var props = map[string]*propInfo{}
@@ -212,7 +215,7 @@ func main() {
 				continue
 			}
 			for s := 0; s < lvl; s++ {
-				jobs = append(jobs, &job{bin: bin, name: fmt.Sprintf("%s[%d/%d]", it.Name, s, lvl),
+				jobs = append(jobs, &job{bin: bin, prop: prop, part: it.Name, name: fmt.Sprintf("%s[%d/%d]", it.Name, s, lvl),
 					args: []string{"-prop", prop, "-part", it.Name, "-tier", *tier,
 						"-shard", fmt.Sprint(s), "-nshards", fmt.Sprint(lvl)}})
 			}
@@ -273,7 +276,9 @@ func runJobs(jobs []*job, n int) {
 			defer wg.Done()
 			for j := range ch {
 				cmd := exec.Command(j.bin, j.args...)
-				cmd.Env = append(os.Environ(), "GOMAXPROCS=1", "GOTRACEBACK=all")
+				cur := filepath.Join(verifDir, ".build", "cur", fmt.Sprintf("%d-%s", os.Getpid(), strings.NewReplacer("/", "_", "[", "_", "]", "_", ",", "_").Replace(j.name)))
+				os.MkdirAll(filepath.Dir(cur), 0755)
+				cmd.Env = append(os.Environ(), "GOMAXPROCS=1", "GOTRACEBACK=all", "VERIF_CURFILE="+cur)
 				var so, se bytes.Buffer
 				cmd.Stdout = &so
 				cmd.Stderr = &se
@@ -286,6 +291,20 @@ func runJobs(jobs []*job, n int) {
 					j.res = &r
 				}
 				if err != nil && j.res == nil {
+					if in, rerr := ioutil.ReadFile(cur); rerr == nil && len(in) > 0 {
+						// a process-killing fatal error is attributed to the case in progress
+						first := firstLine(se.String(), 160)
+						if i := strings.Index(se.String(), "fatal error:"); i >= 0 {
+							first = firstLine(se.String()[i:], 160)
+						} else if i := strings.Index(se.String(), "panic:"); i >= 0 {
+							first = firstLine(se.String()[i:], 160)
+						}
+						j.res = &Result{Prop: j.prop, Scenario: j.part, Capped: "worker died on a case; rest of the shard not covered",
+							Outcomes: map[string]int64{}, Execs: 1,
+							Violations: []*Violation{{Key: "process-killed:" + first, Msg: "the worker process died while evaluating this input: " + first, Input: string(in)}}}
+						os.Remove(cur)
+						continue
+					}
 					tail := se.String()
 					if len(tail) > 3000 {
 						tail = tail[:1500] + "\n...\n" + tail[len(tail)-1500:]
@@ -401,6 +420,26 @@ func build() (string, *instr.Summary, error) {
 		kv := strings.SplitN(x, "=", 2)
 		seamOverlay[filepath.Join(repoDir, kv[0])] = kv[1]
 	}
+	// C17: route the import locator's file-system calls through recording wrappers
+	if src, err := ioutil.ReadFile(filepath.Join(repoDir, "util", "import.go")); err == nil {
+		txt := string(src)
+		n := 0
+		for _, r := range [][2]string{{"ioutil.ReadFile(", "verifReadFile("}, {"os.ReadFile(", "verifReadFile("},
+			{"os.Open(", "verifOpen("}, {"os.Stat(", "verifStat("}, {"os.Lstat(", "verifStat("}} {
+			n += strings.Count(txt, r[0])
+			txt = strings.Replace(txt, r[0], r[1], -1)
+		}
+		if strings.Contains(txt, `"io/ioutil"`) {
+			txt += "\nvar _ = ioutil.ReadFile\n"
+		}
+		if strings.Contains(txt, `"os"`) {
+			txt += "\nvar _ = os.Open\n"
+		}
+		dst := filepath.Join(bdir, "seam_util_import.go")
+		ioutil.WriteFile(dst, []byte(txt), 0644)
+		seamOverlay[filepath.Join(repoDir, "util", "import.go")] = dst
+		ioutil.WriteFile(filepath.Join(bdir, "io_calls_rewritten"), []byte(fmt.Sprint(n)), 0644)
+	}
 	js, _ := json.Marshal(map[string]interface{}{"Replace": seamOverlay})
 	ioutil.WriteFile(filepath.Join(bdir, "seams.json"), js, 0644)
 	if _, err := os.Stat(filepath.Join(mc, "cmd", "mcseq")); err == nil {
@@ -488,6 +527,7 @@ func aggregate(prop string, pi *propInfo, tier string, seed int, jobs []*job, fi
 	ev := &Evidence{PropertyID: prop, Tier: tier, Seed: seed, Level: pi.level, Coverage: map[string]interface{}{},
 		Assumptions: pi.assume}
 	var execs, trans, nontriv, skipped int64
+	ruleText := ""
 	states := map[uint64]struct{}{}
 	statesN := 0
 	outcomes := map[string]int64{}
@@ -570,8 +610,12 @@ func aggregate(prop string, pi *propInfo, tier string, seed int, jobs []*job, fi
 				}
 			}
 		}
-		if r.Rule != "" {
-			ev.Coverage["rule"] = r.Rule
+		if r.Rule != "" && !strings.Contains(ruleText, r.Rule) {
+			if ruleText != "" {
+				ruleText += " || "
+			}
+			ruleText += r.Scenario + ": " + r.Rule
+			ev.Coverage["rule"] = ruleText
 		}
 		for k, v := range r.Extra {
 			extra[r.Scenario+"."+k] = v
@@ -679,6 +723,11 @@ func aggregate(prop string, pi *propInfo, tier string, seed int, jobs []*job, fi
 	}
 	if len(samples) == 0 && ev.harnessErr == "" {
 		ev.harnessErr = "no samples produced"
+	}
+	for _, mo := range pi.mustOutcomes {
+		if outcomes[mo] == 0 && ev.harnessErr == "" && len(caps) == 0 {
+			ev.harnessErr = "vacuous exploration: outcome " + mo + " never observed"
+		}
 	}
 	if pi.minOutcomes > 0 && len(outcomes) < pi.minOutcomes && ev.harnessErr == "" {
 		ev.harnessErr = fmt.Sprintf("vacuous exploration: only %d distinct outcome(s)", len(outcomes))
